@@ -46,7 +46,7 @@ ALL_KINDS = ['word', 'word', 'atom', 'unk', 'unkarg', 'unkarg2', 'label', 'index
              'itemize', 'enumerate', 'itemlab', 'verb', 'verbatim', 'inline', 'display', 'tabular', 'proof',
              'theorem', 'tikz', 'usermac', 'usermac2', 'usermacopt', 'usermacoptonly', 'defmac', 'defbymac', 'latexname', 'texorpdf', 'framebox',
              'unkenv', 'figure', 'minipage', 'vanish', 'hspace', 'phantom', 'quad', 'newline', 'group',
-             'textbackslash', 'gls', 'glsentry', 'url', 'tikzin', 'usermacml', 'removed_ext', 'twice_ext', 'mathtext', 'footcite', 'accent', 'lstlisting',
+             'textbackslash', 'gls', 'glsentry', 'url', 'tikzin', 'usermacml', 'usermacverb', 'removed_ext', 'twice_ext', 'mathtext', 'footcite', 'accent', 'lstlisting',
              'includegraphics', 'emph', 'par', 'cref']
 
 ALL_PKGS = {'amsmath', 'amsthm', 'babel', 'biblatex', 'circuitikz', 'geometry', 'glossaries', 'graphicx',
@@ -73,7 +73,7 @@ def pkgs_of(pack):
 
 
 HEAD_FORBIDDEN = {'display', 'enumerate', 'section', 'usersec', 'proof', 'itemize', 'tabular', 'tikz', 'theorem', 'itemlab',
-                  'verbatim', 'figure', 'minipage', 'defmac', 'defbymac', 'removed_ext', 'unkenv', 'lstlisting', 'par', 'glsentry'}
+                  'verbatim', 'usermacverb', 'figure', 'minipage', 'defmac', 'defbymac', 'removed_ext', 'unkenv', 'lstlisting', 'par', 'glsentry'}
 SIDE_EFFECTS = {'footnote', 'caption', 'inline', 'usermac', 'usermac2', 'usermacopt', 'usermacoptonly', 'gls', 'cref',
                 'footcite', 'twice_ext', 'mathtext'}
 # inside an argument that is duplicated by a macro (twice_ext): nothing with side effects or counters
@@ -248,7 +248,7 @@ class Gen:
             k = 'word'
         if k in KIND_PKG and KIND_PKG[k] not in self.pkgs:
             k = 'word'
-        if not allow_par and k in ('par', 'display', 'verbatim', 'proof', 'theorem', 'minipage', 'lstlisting',
+        if not allow_par and k in ('par', 'display', 'verbatim', 'usermacverb', 'proof', 'theorem', 'minipage', 'lstlisting',
                                    'itemize', 'enumerate', 'itemlab', 'tabular', 'figure', 'unkenv', 'tikz',
                                    'removed_ext', 'skip', 'defmac', 'defbymac', 'comment', 'glsentry'):
             k = 'word'
@@ -626,7 +626,7 @@ class Gen:
 
     def k_verbatim(self):
         self.w('\\begin{verbatim}')
-        self.w(self.rnd.choice(['\n', ' ', '', '  \n', '\t\n', ' \n  ', '   \n\n']))
+        self.w(self.rnd.choice(['\n', ' ', '', '  \n', '\t\n', ' \n  ', '   \n\n', '\n\n', '\n\n\n', '\n \n']))
         self.path.append('verbatim')
         self.word()
         self.w(self.rnd.choice(['\n', ' ', '\n  ']))
@@ -648,7 +648,10 @@ class Gen:
         st = self.pos()
         a, b = self.rnd.choice([('$', '$'), ('\\(', '\\)')])
         self.w(a + self.rnd.choice(['x_{' + self.hid_txt() + '}+\\alpha', 'a^2', '\\frac{1}{' + self.hid_txt() + '}',
-                                    '\\mathrm{' + self.hid_txt() + '}', 'f(x)=0']) + b)
+                                    '\\mathrm{' + self.hid_txt() + '}', 'f(x)=0',
+                                    # macros whose names merely start like a text macro: part of the formula
+                                    '\\textstyle ' + self.hid_txt(), 'a\\textcolor{red}{' + self.hid_txt() + '}',
+                                    '\\textwidth ' + self.hid_txt() + '+\\mboxed{' + self.hid_txt() + '}']) + b)
         self.cur.append(('@I', st + 1, self.pos(), 'g:inline'))
 
     def k_display(self):
@@ -659,7 +662,8 @@ class Gen:
             envs += [('\\begin{align*}', '\\end{align*}'), ('\\begin{equation*}', '\\end{equation*}'),
                      ('\\begin{gather}', '\\end{gather}'), ('\\begin{alignat}{2}', '\\end{alignat}')]
         a, b = self.rnd.choice(envs)
-        self.w(a + self.rnd.choice([' x=' + self.hid_txt(), '\n a_{' + self.hid_txt() + '}\n', ' \\sum_i i ']))
+        self.w(a + self.rnd.choice([' x=' + self.hid_txt(), '\n a_{' + self.hid_txt() + '}\n', ' \\sum_i i ',
+                                    ' \\textstyle ' + self.hid_txt() + ' ', ' \\textcolor{red}{' + self.hid_txt() + '}=0 ']))
         if self.rnd.random() < .3:
             self.w('\\label{' + self.hid_txt() + '}')
         self.w(b)
@@ -798,6 +802,16 @@ class Gen:
         en = self.pos()
         self.gen('ybodyh', st + 1, en, 'mlbody:6')
         self.w('{}')
+
+    def k_usermacverb(self):
+        """user macro whose body is a verbatim environment: the text and the paragraph breaks around it are
+        generated by the call"""
+        st = self.pos()
+        self.w('\\ykv')
+        en = self.pos()
+        self.gen('ybodyv', st + 1, en, 'macro-body')
+        self.gen('ybodyw', st + 1, en, 'wsafter:2')
+        self.w(self.rnd.choice(['{}', ' ', '\n']))
 
     def k_removed_ext(self):
         self.need_ext = True
@@ -1039,7 +1053,8 @@ PREAMBLE = ('\\newcommand{\\ymaca}[1]{ybodya #1 ybodyb}\n'
             '\\newcommand{\\ydefm}[2]{\\newcommand{#1}{#2 ybodyf}}\n'
             '\\newcommand{\\ysite}[1]{\\url{ysitepre/#1}}\n'
             '\\newcommand{\\ytsec}[1]{\\section{#1 ybodyg \\LaTeX}}\n'
-            '\\newcommand{\\ykm}{\\index{hkmQ}     \n      ybodyh}\n')
+            '\\newcommand{\\ykm}{\\index{hkmQ}     \n      ybodyh}\n'
+            '\\newcommand{\\ykv}{\\begin{verbatim}\nybodyv  ybodyw\\end{verbatim}}\n')
 CREFSED = ('s/\\\\cref{ylab}/ycrefig~(7)/g\n'
            's/\\\\Cref{ylab}/Ycrefig~(7)/g\n'
            's/\\\\cref{yl2}/ycreq (1) to (2)/g\n'
